@@ -233,7 +233,7 @@ def main(tier):
     run_spec(rep, C02Spec(tier), "one-instance-histories", max_depth=8 if tier == "quick" else 14,
              time_cap=120 if tier == "quick" else 3000)
     from ._t import line_level_part
-    line_level_part(rep, LINE_LEVEL)
+    line_level_part(rep, LINE_LEVEL, two=("get_hex_digest(p1,sha256)||get_hex_digest(p2,md5) from p1A,p2B",))
     rep.assumptions += ["line level (engine L): two calls on ONE instance with one pre-emption at every source line of the "
                         "package; each call's value must be what it is in a sequential run",
                         "engine S carries the instance's plain-data attributes from call to call, so a call that "
